@@ -305,7 +305,16 @@ def recOps : List String := ["rmk", "riter", "ritem", "rvalid", "rnext", "rprev"
 
 def tpOps : List String := ["add", "sub", "addmonths", "tick", "tz", "hash", "hasheq", "cmp", "subtp", "addtrunc"]
 
+/-- EXTENSION POINT for further driver modules (`IsoDT/Driver/*.lean`): each exports
+    `dispatch : List String → Option String` (none = not my op); chain them here with `<|>`. -/
+def extDispatch (toks : List String) : Option String :=
+  (none : Option String)
+  -- <|> IsoDT.Driver.Foo.dispatch toks
+
 def dispatch (toks : List String) : String :=
+  match extDispatch toks with
+  | some out => out
+  | none =>
   match toks with
   | ["localtz", tz, alt, dl, dst] =>
     match ints? [tz, alt, dl, dst] with
